@@ -42,6 +42,11 @@ def _contract_job(args):
         mod = importlib.import_module(modname)
         c = mod.CONTRACTS[idx]
         out['target'], out['cname'], out['label'] = c.target, c.cname, c.label
+        if hasattr(c, 'run_custom'):
+            o2 = c.run_custom(tier, seed, repo)
+            o2['idx'] = idx
+            o2.setdefault('wall_s', round(time.time() - t0, 3))
+            return o2
         budget = BUDGET[tier]
         run = FunctionRun(c).generate()
         out['stats'] = run.stats
@@ -131,9 +136,12 @@ def _model_text(model, limit=60):
 
 
 def load_known(prop):
-    path = os.path.join(ROOT, 'KNOWN_FINDINGS.jsonl')
+    import glob
+    paths = [os.path.join(ROOT, 'KNOWN_FINDINGS.jsonl')] + sorted(glob.glob(os.path.join(ROOT, 'known.d', '*.jsonl')))
     known, fixed = [], []
-    if os.path.exists(path):
+    for path in paths:
+        if not os.path.exists(path):
+            continue
         for line in open(path):
             line = line.strip()
             if not line or line.startswith('#'):
